@@ -211,6 +211,25 @@ theorem NodeOk.mono {b b' : SeqSt S} (h : CritLe b b') {live : Bool} {n : SubP S
     obtain ⟨ha0, hle⟩ := h.2 ha
     have := hn.2.2 ha0 hl; omega⟩
 
+/-- facts about a fringe entry, relative to the shared record `b`.  Since `enqueue_cutset` no longer caps the bound of a
+    cut-set node by the bound of the node just processed (repair of D14), a worker that enqueues *after* another worker's
+    `abort_search` may push nodes whose bound exceeds the recorded `best_ub`; what stays below the recorded bound is every
+    *value* through such an entry that beats the incumbent (it is a value through the enqueuing worker's node, whose bound
+    `abort_search` covered) -/
+def FrNodeOk (b : SeqSt S) (n : SubP S) : Prop :=
+  Good Phi opt n ∧ UbOk Phi b.bestLb n ∧ (b.abort = true → ∀ y, Phi n = some y → y > b.bestLb → y ≤ b.bestUb)
+
+theorem FrNodeOk.mono {b b' : SeqSt S} (h : CritLe b b') {n : SubP S} (hn : FrNodeOk Phi opt b n) :
+    FrNodeOk Phi opt b' n :=
+  ⟨hn.1, ubOk_mono Phi h.1 hn.2.1, fun ha y hy hgt => by
+    obtain ⟨ha0, hle⟩ := h.2 ha
+    have := hn.2.2 ha0 y hy (by have := h.1; omega); omega⟩
+
+/-- a fringe entry that is popped (the search is not aborted) is a fine node in hand -/
+theorem FrNodeOk.toNode {b : SeqSt S} (ha : b.abort = false) (live : Bool) {n : SubP S} (hn : FrNodeOk Phi opt b n) :
+    NodeOk Phi opt b live n :=
+  ⟨hn.1, hn.2.1, fun h => by rw [ha] at h; cases h⟩
+
 /-- everything the invariant says about worker `i` in state `w` -/
 structure Loc (c : ParCrit S) (i : Nat) (w : WSt S) : Prop where
   stage : WOk Phi opt Sol c.base.bestLb w
@@ -237,8 +256,9 @@ structure SysInv (s : Sys S) : Prop where
   lbOk : s.crit.base.bestLb ≤ opt
   /-- … namely the value of the stored solution, which is feasible -/
   solOk : ∀ p, s.crit.base.bestSol = some p → Sol p s.crit.base.bestLb
-  /-- fringe entries are good, their bound is valid, and after an abort it is below the recorded bound -/
-  fr : ∀ n ∈ s.crit.base.fringe, NodeOk Phi opt s.crit.base true n
+  /-- fringe entries are good, their bound is valid, and after an abort what they carry above the incumbent is below
+      the recorded bound -/
+  fr : ∀ n ∈ s.crit.base.fringe, FrNodeOk Phi opt s.crit.base n
   /-- per-worker facts: stage knowledge, `upper_bounds` cell, node in hand -/
   loc : ∀ (i : Nat) (w : WSt S), s.ws[i]? = some w → Loc Phi opt Sol s.crit i w
   /-- if the optimum beats the incumbent, an open node still carries it below its bound — or the search
@@ -270,7 +290,7 @@ theorem inv_set {s : Sys S} {i : Nat} {w : WSt S} (hi : SysInv Phi opt Sol s) (h
     (hlen : c'.upperBounds.length = s.crit.upperBounds.length)
     (hlb : c'.base.bestLb ≤ opt) (hsol : ∀ p, c'.base.bestSol = some p → Sol p c'.base.bestLb)
     (habLb : c'.base.abort = true → c'.base.bestLb ≤ c'.base.bestUb)
-    (hfr : ∀ n ∈ c'.base.fringe, NodeOk Phi opt c'.base true n)
+    (hfr : ∀ n ∈ c'.base.fringe, FrNodeOk Phi opt c'.base n)
     (hloc : Loc Phi opt Sol c' i w')
     (hothers : ∀ (j : Nat) (wj : WSt S), j ≠ i → s.ws[j]? = some wj → Loc Phi opt Sol c' j wj)
     (hcnt : c'.ongoing + (if w.holds then 1 else 0) = s.crit.ongoing + (if w'.holds then 1 else 0))
@@ -329,24 +349,24 @@ theorem inv_local {s : Sys S} {i : Nat} {w : WSt S} (hi : SysInv Phi opt Sol s) 
 
 /-! ### `enqueue_cutset` on either fringe -/
 
-/-- what the new fringe `F` is to the multiset `L` (old fringe + capped cut-set nodes that beat the
+/-- what the new fringe `F` is to the multiset `L` (old fringe + cut-set nodes that beat the
     incumbent): every entry has the potential of a member of `L`, a bound not smaller than that member's
     and equal to the bound of a member; every member is covered by an entry -/
 def FrOk (F : List (SubP S)) (L : SubP S → Prop) : Prop :=
   (∀ s ∈ F, ∃ a b, L a ∧ L b ∧ Phi s = Phi a ∧ a.ub ≤ s.ub ∧ s.ub = b.ub) ∧
   (∀ c, L c → ∃ s ∈ F, Phi c ≤ Phi s ∧ c.ub ≤ s.ub)
 
-theorem enqueue_frOk (dedup : Bool) (hphi : PhiOk Phi dedup) (st : SeqSt S) (ub : Int) (cs : List (SubP S)) :
-    (st.enqueue dedup ub cs).bestLb = st.bestLb ∧ (st.enqueue dedup ub cs).bestSol = st.bestSol ∧
-    (st.enqueue dedup ub cs).bestUb = st.bestUb ∧ (st.enqueue dedup ub cs).abort = st.abort ∧
-    FrOk Phi (st.enqueue dedup ub cs).fringe
-      (fun c => c ∈ st.fringe ∨ ∃ c0 ∈ cs, c = { c0 with ub := min ub c0.ub } ∧ min ub c0.ub > st.bestLb) := by
+theorem enqueue_frOk (dedup : Bool) (hphi : PhiOk Phi dedup) (st : SeqSt S) (cs : List (SubP S)) :
+    (st.enqueue dedup cs).bestLb = st.bestLb ∧ (st.enqueue dedup cs).bestSol = st.bestSol ∧
+    (st.enqueue dedup cs).bestUb = st.bestUb ∧ (st.enqueue dedup cs).abort = st.abort ∧
+    FrOk Phi (st.enqueue dedup cs).fringe
+      (fun c => c ∈ st.fringe ∨ ∃ c0 ∈ cs, c = c0 ∧ c0.ub > st.bestLb) := by
   cases dedup
-  · obtain ⟨e1, e2, e3, e4, e5⟩ := enqueue_false_spec st ub cs
+  · obtain ⟨e1, e2, e3, e4, e5⟩ := enqueue_false_spec st cs
     refine ⟨e1, e2, e3, e4, fun s hs => ?_, fun c hc => ?_⟩
     · exact ⟨s, s, (e5 s).mp hs, (e5 s).mp hs, rfl, Int.le_refl _, rfl⟩
     · exact ⟨c, (e5 c).mpr hc, EInt.le_refl _, Int.le_refl _⟩
-  · obtain ⟨e1, e2, e3, e4, _, hco⟩ := enqueue_true_spec st ub cs
+  · obtain ⟨e1, e2, e3, e4, _, hco⟩ := enqueue_true_spec st cs
     have hmono := hphi.2 rfl
     refine ⟨e1, e2, e3, e4, fun s hs => ?_, fun c hc => ?_⟩
     · obtain ⟨a, b, ha, hb, rfl, hab⟩ := hco.1 s hs
@@ -495,7 +515,8 @@ theorem popLoop_item {c c' : ParCrit S} {N nn : SubP S} {k : Nat}
 
 theorem inv_gwItem {s : Sys S} {i : Nat} {N : SubP S} {rest : List (SubP S)} {c' : ParCrit S} {nn : SubP S} {k : Nat}
     {c'' : ParCrit S}
-    (hi : SysInv Phi opt Sol s) (hw : s.ws[i]? = some .idle) (hp : PopMax s.crit.base.fringe N rest)
+    (hi : SysInv Phi opt Sol s) (hw : s.ws[i]? = some .idle) (ha : s.crit.base.abort = false)
+    (hp : PopMax s.crit.base.fringe N rest)
     (hl : popLoop (setFringe s.crit rest) [(N, true)] 0 = (c', some (some nn), k))
     (ht : c'.take i nn = some c'') :
     SysInv Phi opt Sol { crit := c'', ws := s.ws.set i (.readR nn) } := by
@@ -521,7 +542,7 @@ theorem inv_gwItem {s : Sys S} {i : Nat} {N : SubP S} {rest : List (SubP S)} {c'
     · injection hu with hu; subst hu
       rw [t7]; exact List.getElem?_set_self t8
     · injection hn with hn; subst hn
-      exact (hi.fr _ hN).mono Phi opt hle
+      exact ((hi.fr _ hN).mono Phi opt hle).toNode Phi opt (by rw [t5]; exact ha) _
   · refine others_mono Phi opt Sol hi i c'' hle (fun j hne => ?_)
     rw [t7]; exact List.getElem?_set_ne (fun e => hne e.symm)
   · intro hgt x hx hP hU
@@ -617,7 +638,7 @@ theorem update_glob {s : Sys S} {i : Nat} {w : WSt S} {n : SubP S} {lb : Int} {o
     (s.crit.updateBest o).base.bestLb ≤ opt ∧
     (∀ p, (s.crit.updateBest o).base.bestSol = some p → Sol p (s.crit.updateBest o).base.bestLb) ∧
     ((s.crit.updateBest o).base.abort = true → (s.crit.updateBest o).base.bestLb ≤ (s.crit.updateBest o).base.bestUb) ∧
-    (∀ m ∈ (s.crit.updateBest o).base.fringe, NodeOk Phi opt (s.crit.updateBest o).base true m) := by
+    (∀ m ∈ (s.crit.updateBest o).base.fringe, FrNodeOk Phi opt (s.crit.updateBest o).base m) := by
   obtain ⟨f1, f2, f3, _, _⟩ := updateBest_fringe s.crit.base o
   have hge := updateBest_lb_ge s.crit.base o
   obtain ⟨hlb, hsol⟩ := updateBest_ok Phi opt Sol s.crit.base n lb o hi.lbOk hi.solOk hc
@@ -711,45 +732,38 @@ theorem inv_updateX {s : Sys S} {i : Nat} {n : SubP S} {lb : Int} {o : DDOut S}
 
 theorem inv_enqueue (dedup : Bool) (hphi : PhiOk Phi dedup) {s : Sys S} {i : Nat} {n : SubP S} {lb : Int} {o : DDOut S}
     (hi : SysInv Phi opt Sol s) (hw : s.ws[i]? = some (.enq n lb o)) :
-    SysInv Phi opt Sol { crit := s.crit.enqueue dedup n.ub o.cutset, ws := s.ws.set i (.fin n false) } := by
+    SysInv Phi opt Sol { crit := s.crit.enqueue dedup o.cutset, ws := s.ws.set i (.fin n false) } := by
   obtain ⟨hst, hC, hbe⟩ : lb ≤ s.crit.base.bestLb ∧ CutsetOk Phi opt n lb o ∧
       (∀ v, o.bestExact = some v → v ≤ s.crit.base.bestLb) := (hi.loc i _ hw).stage
   obtain ⟨hNgood, hNub, hNab⟩ := (hi.loc i _ hw).node n rfl
-  obtain ⟨e1, e2, e3, e4, hF1, hF2⟩ := enqueue_frOk Phi dedup hphi s.crit.base n.ub o.cutset
-  have e1 : (s.crit.enqueue dedup n.ub o.cutset).base.bestLb = s.crit.base.bestLb := e1
-  have e2 : (s.crit.enqueue dedup n.ub o.cutset).base.bestSol = s.crit.base.bestSol := e2
-  have e3 : (s.crit.enqueue dedup n.ub o.cutset).base.bestUb = s.crit.base.bestUb := e3
-  have e4 : (s.crit.enqueue dedup n.ub o.cutset).base.abort = s.crit.base.abort := e4
-  have hle : CritLe s.crit.base (s.crit.enqueue dedup n.ub o.cutset).base :=
+  obtain ⟨e1, e2, e3, e4, hF1, hF2⟩ := enqueue_frOk Phi dedup hphi s.crit.base o.cutset
+  have e1 : (s.crit.enqueue dedup o.cutset).base.bestLb = s.crit.base.bestLb := e1
+  have e2 : (s.crit.enqueue dedup o.cutset).base.bestSol = s.crit.base.bestSol := e2
+  have e3 : (s.crit.enqueue dedup o.cutset).base.bestUb = s.crit.base.bestUb := e3
+  have e4 : (s.crit.enqueue dedup o.cutset).base.abort = s.crit.base.abort := e4
+  have hle : CritLe s.crit.base (s.crit.enqueue dedup o.cutset).base :=
     ⟨by rw [e1]; exact Int.le_refl _, fun h => ⟨by rw [← e4]; exact h, by rw [e3]; exact Int.le_refl _⟩⟩
   -- every member of the multiset `L` is fine w.r.t. the old record
-  have hL : ∀ a, (a ∈ s.crit.base.fringe ∨ ∃ c0 ∈ o.cutset, a = { c0 with ub := min n.ub c0.ub } ∧ min n.ub c0.ub > s.crit.base.bestLb) →
-      NodeOk Phi opt s.crit.base true a := by
+  have hL : ∀ a, (a ∈ s.crit.base.fringe ∨ ∃ c0 ∈ o.cutset, a = c0 ∧ c0.ub > s.crit.base.bestLb) →
+      FrNodeOk Phi opt s.crit.base a := by
     rintro a (ha | ⟨c0, hc0, rfl, _⟩)
     · exact hi.fr a ha
-    · refine ⟨fun y hy => ?_, fun y hy hgt => ?_, fun ha _ => ?_⟩
-      · rw [hphi.1] at hy; exact hC.good c0 hc0 y hy
-      · rw [hphi.1] at hy
-        have h1 := hC.ub c0 hc0 y hy (by omega)
-        obtain ⟨xN, hxN, hle⟩ := hC.sub c0 hc0 y hy
-        have h2 := hNub xN hxN (by omega)
-        show y ≤ min n.ub c0.ub
-        omega
-      · have := hNab ha rfl
-        show min n.ub c0.ub ≤ _
-        omega
-  have hfr : ∀ m ∈ (s.crit.enqueue dedup n.ub o.cutset).base.fringe, NodeOk Phi opt s.crit.base true m := by
+    · refine ⟨hC.good a hc0, fun y hy hgt => hC.ub a hc0 y hy (by omega), fun ha y hy hgt => ?_⟩
+      -- after an abort: a value through the cut-set node is a value through `n`, and `n.ub ≤ best_ub`
+      obtain ⟨xN, hxN, hle⟩ := hC.sub a hc0 y hy
+      have h2 := hNub xN hxN (by omega)
+      have := hNab ha rfl
+      omega
+  have hfr : ∀ m ∈ (s.crit.enqueue dedup o.cutset).base.fringe, FrNodeOk Phi opt s.crit.base m := by
     intro m hm
-    obtain ⟨a, b, ha, hb, hP, hau, hbu⟩ := hF1 m hm
-    obtain ⟨ga, ua, _⟩ := hL a ha
-    obtain ⟨_, _, ab⟩ := hL b hb
-    refine ⟨fun y hy => ga y (hP ▸ hy), fun y hy hgt => ?_, fun h1 h2 => ?_⟩
-    · have := ua y (hP ▸ hy) hgt; omega
-    · have := ab h1 h2; omega
+    obtain ⟨a, _, ha, _, hP, hau, _⟩ := hF1 m hm
+    obtain ⟨ga, ua, ab⟩ := hL a ha
+    refine ⟨fun y hy => ga y (hP ▸ hy), fun y hy hgt => ?_, fun h1 y hy hgt => ab h1 y (hP ▸ hy) hgt⟩
+    have := ua y (hP ▸ hy) hgt; omega
   -- a member of `L` that carries the optimum is covered by an entry of the new fringe that carries it too
-  have hcovL : ∀ a, (a ∈ s.crit.base.fringe ∨ ∃ c0 ∈ o.cutset, a = { c0 with ub := min n.ub c0.ub } ∧ min n.ub c0.ub > s.crit.base.bestLb) →
+  have hcovL : ∀ a, (a ∈ s.crit.base.fringe ∨ ∃ c0 ∈ o.cutset, a = c0 ∧ c0.ub > s.crit.base.bestLb) →
       Phi a = some opt → opt ≤ a.ub →
-      ∃ y, y ∈ (s.crit.enqueue dedup n.ub o.cutset).base.fringe ∧ Phi y = some opt ∧ opt ≤ y.ub := by
+      ∃ y, y ∈ (s.crit.enqueue dedup o.cutset).base.fringe ∧ Phi y = some opt ∧ opt ≤ y.ub := by
     intro a ha hP hU
     obtain ⟨m, hm, hPm, hUm⟩ := hF2 a ha
     rw [hP] at hPm
@@ -779,8 +793,7 @@ theorem inv_enqueue (dedup : Bool) (hphi : PhiOk Phi dedup) {s : Sys S} {i : Nat
     have hyeq : y = opt := by omega
     subst hyeq
     have hcu := hC.ub c0 hc0 y hy (by omega)
-    obtain ⟨z, hz, hPz, hUz⟩ := hcovL { c0 with ub := min n.ub c0.ub } (Or.inr ⟨c0, hc0, rfl, by omega⟩)
-      (by rw [hphi.1]; exact hy) (by show y ≤ min n.ub c0.ub; omega)
+    obtain ⟨z, hz, hPz, hUz⟩ := hcovL c0 (Or.inr ⟨c0, hc0, rfl, by omega⟩) hy hcu
     exact Or.inl ⟨z, Or.inl hz, hPz, hUz⟩
   · exact Or.inl ⟨x, Or.inr (Or.inr h), hP, hU⟩
 
@@ -866,7 +879,7 @@ theorem step_inv (dedup : Bool) (hphi : PhiOk Phi dedup) {okR okX : SubP S → I
   | gwComplete i hw ha ho hf => exact inv_gwComplete Phi opt Sol hi hw ha ho hf
   | gwWait i hw ha ho hf => exact inv_gwWait Phi opt Sol hi hw
   | gwStarve i N rest c' k hw ha hp hl => exact inv_gwStarve Phi opt Sol hi hw hp hl
-  | gwItem i N rest c' nn k c'' hw ha hp hl ht => exact inv_gwItem Phi opt Sol hi hw hp hl ht
+  | gwItem i N rest c' nn k c'' hw ha hp hl ht => exact inv_gwItem Phi opt Sol hi hw ha hp hl ht
   | gwCrash i N rest c' nn k hw ha hp hl ht => exact inv_gwCrash Phi opt Sol hi hw hp hl
   | readLbR i n hw => exact inv_readLbR Phi opt Sol hi hw
   | compileR i n lb r hw hok => exact inv_compileR Phi opt Sol hi hw (fun o ho => hR n lb o (hok o ho))
@@ -981,13 +994,24 @@ theorem SysInv.toInv {s : Sys S} (hi : SysInv Phi opt Sol s) (ha : s.crit.base.a
   · exact ⟨x, (mem_openList s x).mpr hx, hP, hU⟩
   · rw [ha] at h; cases h
 
-/-- after an abort every open node of a live worker, and every fringe entry, is below the recorded bound -/
+/-- after an abort every open node of a live worker is below the recorded bound -/
+theorem SysInv.abortCovHeld {s : Sys S} (hi : SysInv Phi opt Sol s) (ha : s.crit.base.abort = true) (hnc : NoCrash s)
+    {j : Nat} {wj : WSt S} {x : SubP S} (hj : s.ws[j]? = some wj) (hx : wj.openNode = some x) :
+    x.ub ≤ s.crit.base.bestUb := by
+  have hcr := hnc wj (List.mem_iff_getElem?.mpr ⟨j, hj⟩)
+  exact ((hi.loc j wj hj).node x hx).2.2 ha (by rw [hcr]; rfl)
+
+/-- after an abort whatever an open node of a live worker, or a fringe entry, carries above the incumbent is below the
+    recorded bound.  (For a fringe entry the *bound* itself need not be: without the cap of `enqueue_cutset` a worker that
+    enqueues after the abort pushes its cut-set nodes with their own bounds.) -/
 theorem SysInv.abortCov {s : Sys S} (hi : SysInv Phi opt Sol s) (ha : s.crit.base.abort = true) (hnc : NoCrash s)
-    {x : SubP S} (hx : Open s x) : x.ub ≤ s.crit.base.bestUb := by
+    {x : SubP S} (hx : Open s x) : ∀ y, Phi x = some y → y > s.crit.base.bestLb → y ≤ s.crit.base.bestUb := by
+  intro y hy hgt
   rcases hx with h | ⟨j, wj, hj, hx⟩
-  · exact (hi.fr x h).2.2 ha rfl
-  · have hcr := hnc wj (List.mem_iff_getElem?.mpr ⟨j, hj⟩)
-    exact ((hi.loc j wj hj).node x hx).2.2 ha (by rw [hcr]; rfl)
+  · exact (hi.fr x h).2.2 ha y hy hgt
+  · have h1 := hi.abortCovHeld Phi opt Sol ha hnc hj hx
+    have h2 := ((hi.loc j wj hj).node x hx).2.1 y hy hgt
+    omega
 
 theorem complete_optimal {s : Sys S} {i : Nat} (hi : SysInv Phi opt Sol s) (hc : CompletesAt s i) :
     s.crit.base.bestLb = opt ∧ ∀ p, s.crit.base.bestSol = some p → Sol p opt := by
@@ -1005,8 +1029,8 @@ theorem cutoff_bounds {s : Sys S} (hi : SysInv Phi opt Sol s) (ha : s.crit.base.
     s.crit.base.bestLb ≤ opt ∧ opt ≤ s.crit.base.bestUb := by
   refine ⟨hi.lbOk, ?_⟩
   by_cases hgt : opt > s.crit.base.bestLb
-  · rcases hi.cover hgt with ⟨x, hx, _, hU⟩ | ⟨_, h⟩
-    · have := hi.abortCov Phi opt Sol ha hnc hx; omega
+  · rcases hi.cover hgt with ⟨x, hx, hP, _⟩ | ⟨_, h⟩
+    · exact hi.abortCov Phi opt Sol ha hnc hx opt hP hgt
     · exact h
   · have := hi.abLb ha; omega
 
